@@ -285,12 +285,12 @@ def run(tier, V):
     for i in range(0, len(pats), 12):
         items = []
         for ast in pats[i:i + 12]:
-            ls = lines + R.sample(lines4, 20 if tier == 'quick' else 120)
+            ls = lines + R.sample(lines4, 20 if tier == 'quick' else 60)
             cases = [(l, f) for l in ls for f in (range(16) if tier == 'thorough' else (R.sample(range(16), 3)))]
             items.append((ast, cases))
         jobs.append((exe, items))
     # (b) random larger patterns
-    nrand = 2500 if tier == 'quick' else 40000
+    nrand = 2500 if tier == 'quick' else 20000
     pool = mr.LETTERS + ['a', 'a', 'b', 'b', ' ', ' ']
     items = []
     for _ in range(nrand):
@@ -328,7 +328,7 @@ def run(tier, V):
     # (c) sets
     sjobs = []
     items = []
-    for _ in range(400 if tier == 'quick' else 6000):
+    for _ in range(400 if tier == 'quick' else 4000):
         k = R.randint(2, 6)
         asts = [mr.rand_ast(R, depth=R.choice([1, 2]), alphabet=['a', 'b', 'c', 'é', ' ']) if R.random() < 0.9 else None for _ in range(k)]
         if sum(mr.number_groups(a)[1] for a in asts if a is not None) > 20:
